@@ -53,3 +53,22 @@ fn k0_error_message() {
     assert!(class(&Error::end_of_input()) == 0);
     kani::cover!(true);
 }
+
+// @harness name=k0_std_same_width_tryfrom props=C05,C11,C20 kind=complete
+// discharges, on this toolchain's core, the conversions that spec/std_specs.vspec ASSUMES for the Verus `decoder` unit
+// because vstd does not specify them: the four same-width unsigned -> signed `TryFrom`s (what `try_as` resolves to in
+// `Decoder::{i8,i16,i32,i64}`) and the reflexive `From<T> for T` (`Int::pos::<u64>`).  Loop-free, every value.
+#[kani::proof]
+fn k0_std_same_width_tryfrom() {
+    let a: u8 = kani::any();
+    match i8::try_from(a) { Ok(v) => assert!(a <= 127 && v as i64 == a as i64), Err(_) => assert!(a > 127) }
+    let b: u16 = kani::any();
+    match i16::try_from(b) { Ok(v) => assert!(b <= 32767 && v as i64 == b as i64), Err(_) => assert!(b > 32767) }
+    let c: u32 = kani::any();
+    match i32::try_from(c) { Ok(v) => assert!(c <= 0x7fff_ffff && v as i64 == c as i64), Err(_) => assert!(c > 0x7fff_ffff) }
+    let d: u64 = kani::any();
+    match i64::try_from(d) { Ok(v) => assert!(d <= 0x7fff_ffff_ffff_ffff && v as i128 == d as i128), Err(_) => assert!(d > 0x7fff_ffff_ffff_ffff) }
+    let x: u64 = kani::any();
+    assert!(<u64 as From<u64>>::from(x) == x);
+    kani::cover!(a > 127);
+}
